@@ -12,8 +12,105 @@ def gen_cases(seed, n_cases, maxn=25):
                                 "dmax": float(rng.choice([2.0, 4.0, 6.0])), "dmin": float(rng.choice([0.0, 0.0, 0.5, 1.5])), "seed": int(rng.integers(1 << 30))}
 
 
+def gen_scenario_cases(seed, n_cases):
+    """role-based arrangements that drive trace_chains into its rare branches (a chain head stolen by a closer exit site, a loose chain
+    end that gets a new tail, a tail cut off by a closer entry site, a chain connecting on both sides at once), with random distances,
+    directions, clutter, index order and 1..3 tomograms.  Line coverage of ribana.add_chain_suffix / add_chain_prefix / trace_chains under
+    this family is recorded by tools (see DESIGN.md): plain random clusters reach the tail-cut branch in < 1% of the cases."""
+    rng = np.random.default_rng(seed + 1921)
+    for ci in range(n_cases):
+        yield (ci, "scenario", ci % 4), {"scenario": ["tailcut", "twosided", "twosided_headcut", "mixed"][ci % 4], "nt": int(rng.choice([1, 1, 2, 3])), "dmax": float(rng.choice([4.0, 10.0])),
+                                         "dmin": float(rng.choice([0.0, 0.0, 0.8])), "ordered": bool(rng.random() < 0.75), "clutter": int(rng.integers(0, 4)), "seed": int(rng.integers(1 << 30))}
+
+
+def _unit(rng, around=None, max_angle=180.0):
+    for _ in range(1000):
+        d = rng.normal(size=3); d = d / np.linalg.norm(d)
+        if around is None or np.dot(d, around) >= np.cos(np.deg2rad(max_angle)):
+            return d
+    return around
+
+
+def _scenario(rng, kind, dmax, dmin, origin):
+    """returns (sites, order constraints): sites[name] = (entry, exit); constraints = list of (earlier, later)"""
+    far_n = [0]
+
+    def far():
+        far_n[0] += 1
+        return origin + _unit(rng) * dmax * 60.0 * (1 + far_n[0])
+    lo = dmin + 0.05 * dmax
+    a = rng.uniform(lo + 0.1 * dmax, lo + 0.3 * dmax)       # P.exit -> B.entry (forward link)
+    a2 = rng.uniform(lo, a - 0.03 * dmax)                    # C.exit -> B.entry (closer: steals the head)
+    h = rng.uniform(0.62 * dmax, 0.78 * dmax)                # P.exit -> E.entry / F.entry
+    g = rng.uniform(h + 0.05 * dmax, dmax)                   # P.exit -> D.entry
+    O = origin.copy()
+    u1 = _unit(rng)
+    s, cons = {}, []
+    s["P"] = (far(), O)
+    s["B"] = (O + a * u1, far())
+    s["C"] = (far(), s["B"][0] + a2 * u1)
+    cons += [("P", "B"), ("P", "C")]
+    if kind in ("tailcut", "mixed"):
+        s["D"] = (O + g * _unit(rng, -u1, 35.0), far())
+        s["E"] = (O + h * _unit(rng, -u1, 35.0), far())
+        cons += [("C", "D"), ("D", "E")]
+    if kind in ("twosided", "twosided_headcut", "mixed"):
+        W = far(); V = far()
+        v1, w1 = _unit(rng), _unit(rng)
+        z = rng.uniform(lo + 0.3 * dmax, 0.9 * dmax)
+        s["Q"] = (W + z * v1, far())
+        if kind != "twosided":
+            s["Z"] = (far(), W)                               # Z -> Q forward link of length z; L's exit is closer to Q's entry
+            cons += [("Z", "Q"), ("Z", "F")]
+        hf = rng.uniform(0.62 * dmax, 0.78 * dmax) if kind != "mixed" else rng.uniform(lo, 0.6 * dmax)
+        s["F"] = (O + hf * _unit(rng, -u1, 35.0), V)
+        s["L"] = (V + rng.uniform(lo, dmax) * w1, s["Q"][0] + rng.uniform(lo, max(lo + 0.01, z - 0.05 * dmax)) * v1)
+        s["X"] = (far(), far())
+        cons += [("C", "F"), ("Q", "F"), ("F", "L"), ("F", "X"), ("L", "X")]
+        if kind == "mixed":
+            cons += [("E", "F")]
+    return s, cons
+
+
+def _scenario_lists(c, rng):
+    ent, ex = [], []
+    sid = 0
+    for t in range(c["nt"]):
+        kind = c["scenario"] if t == 0 else ["tailcut", "twosided", "twosided_headcut", "mixed"][int(rng.integers(0, 4))]
+        s, cons = _scenario(rng, kind, c["dmax"], c["dmin"], rng.uniform(200, 400, 3))
+        for k in range(c["clutter"]):
+            s[f"K{k}"] = (rng.uniform(200, 400, 3) + 30 * c["dmax"] * (k + 1), rng.uniform(200, 400, 3) - 35 * c["dmax"] * (k + 1))
+        names = list(s)
+        for _ in range(200):  # a random index order; in most cases one that respects the role order
+            order = [names[i] for i in rng.permutation(len(names))]
+            pos = {n: i for i, n in enumerate(order)}
+            if not c["ordered"] or all(pos[a] < pos[b] for a, b in cons):
+                break
+        else:
+            order = sorted(names, key=lambda n: sum(1 for a, b in cons if b == n) * 10 + len(n))
+            for _ in range(len(names) ** 2):  # bubble into a linear extension
+                pos = {n: i for i, n in enumerate(order)}
+                bad = [(a, b) for a, b in cons if pos[a] > pos[b]]
+                if not bad:
+                    break
+                a, b = bad[0]
+                order.remove(a); order.insert(order.index(b), a)
+        for n in order:
+            sid += 1
+            base = {col: 0.0 for col in MOTL_COLS}
+            e = dict(base, subtomo_id=float(sid), tomo_id=float(t + 1), phi=float(rng.uniform(-180, 180)), theta=float(rng.uniform(0, 180)), psi=float(rng.uniform(-180, 180)), score=float(rng.random()))
+            x = dict(e)
+            for k, a in enumerate("xyz"):
+                e[a], e["shift_" + a] = float(np.floor(s[n][0][k])), float(s[n][0][k] - np.floor(s[n][0][k]))
+                x[a], x["shift_" + a] = float(np.floor(s[n][1][k])), float(s[n][1][k] - np.floor(s[n][1][k]))
+            ent.append(e); ex.append(x)
+    return ent, ex
+
+
 def _lists(c):
     rng = np.random.default_rng(c["seed"])
+    if c.get("scenario"):
+        return _scenario_lists(c, rng)
     rows = random_motl_rows(rng, c["n"], n_tomos=c["nt"], half_ties=False, big_angles=False)
     ent, ex = [], []
     for i, r in enumerate(rows):
